@@ -8,8 +8,9 @@ R3 order of the directory operations on every normal path of save_sensors: every
    moves or removes the main file follows the completed temp write; a move temp -> main
    exists; if the main file is moved aside to the backup, the backup's removal follows the
    move temp -> main and both are under the same `exists` condition; the dirty flag is cleared
-   after all of them; on every path where a file operation failed the flag is NOT cleared and
-   the error propagates.
+   once and before the state is read (alert() marks it again from the pump thread while the
+   file is written - D15); on every path where a file operation failed it is set again and
+   the error propagates; a skipped save (clean state / location not writable) leaves it alone.
 R4 the loader complements the writer: the backup is tried exactly when the main load failed,
    and it is promoted by rename before it is read.
 """
@@ -370,7 +371,7 @@ def analyse_load_rows_c12(res: RuleResult, summ) -> None:
 def run(analysis: Analysis, tier: str) -> RuleResult:
     res = RuleResult(PROP)
     res.explanation = [
-        "Temp-write / fsync / move-aside / move-in / drop-old protocol decided on every abstract path (normal and exceptional, one exceptional path per file operation that can fail) of save_sensors for both file formats: R1 only the temp name is opened for writing; R2 dump -> flush -> fsync on the same handle inside the with block; R3 ordering of the directory operations relative to the completed temp write and to each other, backup operations under one condition, flag cleared last, and on every failing path the flag is not cleared and the error propagates;",
+        "Temp-write / fsync / move-aside / move-in / drop-old protocol decided on every abstract path (normal and exceptional, one exceptional path per file operation that can fail) of save_sensors for both file formats: R1 only the temp name is opened for writing; R2 dump -> flush -> fsync on the same handle inside the with block; R3 ordering of the directory operations relative to the completed temp write and to each other, backup operations under one condition, the dirty flag cleared once before the state is read (a report handled during the write marks it again), set again on every failing path while the error propagates, a skipped save only for a clean state or an unwritable location;",
         "R4 every path of safe_load_sensors: the backup is tried exactly when the main load failed and is promoted by rename before it is read.",
         "Under this protocol, after a crash at any point either the main file (old or new, complete) or the backup (old, complete) exists. File-system semantics (directory fsync, rename over an existing target on Windows) are assumed.",
     ]
